@@ -42,6 +42,9 @@ func init() {
 			{ID: "C07.f", Title: "DETERMINISTIC-SIGNATURE", Template: "T6", MinInst: 1,
 				Rule: "ecdsa.PrivateKey.Sign is called with a nil random source over the SHA-256 of the message",
 				Run:  c07f},
+			{ID: "C07.h", Title: "ACK-NAMES-OWN-SLOT", Template: "T2+T6", MinInst: 4,
+				Rule: "the index a waiter reports is the pool's first index plus the slot at which that very leaf is stored (also after evicting a low-priority entry), guarded by done / not evicted / no error (as C02.d)",
+				Run:  c02d},
 			{ID: "C07.g", Title: "RECOMPUTE-AUTHENTIC", Template: "T2+T6", MinInst: 2,
 				Rule: "recompute-cache inserts only entries yielded by Client.Entries over the tree returned by Client.Checkpoint, guarded by LeafIndex == position",
 				Run:  c07g},
